@@ -166,7 +166,7 @@ Definition One := TZ 1.
    None = the model refuses (mixed physical/logical chain, normal vector) *)
 Definition dAtom (lg : bool) (i : nat) (a : atom) : option texpr :=
   match a with
-  | ACoord l j => if Bool.eqb l lg then Some (if Nat.eqb i j then One else Zero) else None
+  | ACoord l j => if Bool.eqb l lg then Some (if Nat.eqb i j && Nat.ltb j 3 then One else Zero) else None
   | AConst _ => Some Zero
   | AFld l f c s al =>
       if all_zero al || Bool.eqb l lg then Some (TAt (AFld lg f c s (bump i al))) else None
